@@ -56,7 +56,9 @@ ASSUMPTIONS = [
 ]
 BOUNDS = {
     "quick": "2-d: polygons {tilted square, L-shape} x (240 oriented single segments + 14 400 ordered "
-    "pairs); 3-d: cube [0,2]^3, tetrahedron conv{0, 2e1, 2e2, 2e3}, both shifted by (1/2,1/2,1/2), and the shifted cube "
+    "pairs); the non-convex polygons L, U, concave quadrilateral in every cyclic rotation and both "
+    "orientations of their vertex list x (312 oriented segments = the lattice segments + all segments with "
+    "endpoints on {1/2,3/2,5/2}^2, singly and all in one call); 3-d: cube [0,2]^3, tetrahedron conv{0, 2e1, 2e2, 2e3}, both shifted by (1/2,1/2,1/2), and the shifted cube "
     "with every face split into two coplanar triangles / with one face split into two rectangles (hanging nodes) x "
     "{1500 axis-aligned rectangles with corners in {-1..3}, 600 rectangles in the 6 diagonal planes x=y, y=z, "
     "x=z, x+y=2, y+z=2, x+z=2}; every 5th polygon and every polygon lying wholly inside also as second member of a list of two",
@@ -173,6 +175,8 @@ def cases(tier):
     for name in names:
         for k in range(0, nseg, 2):
             out.append({"part": "lines", "polygon": name, "first": [k, min(nseg, k + 2)]})
+    for name in NONCONVEX2D:
+        out.append({"part": "lines-rot", "polygon": name})
     n3 = len(_polys3d(tier))
     for ph in POLYHEDRA:
         for k in range(0, n3, 25):
@@ -227,7 +231,7 @@ def _judge_lines(name, segs, tags, res):
     pieces = {i: [] for i in range(len(segs))}
     for j in range(k):
         parent = int(kept[j])
-        a, b = segs[parent]
+        a, b = (tuple(float(x) for x in q) for q in segs[parent])
         if int(edges[2, j]) != tags[parent]:
             return "piece does not carry the tag of its parent segment", [j, parent, int(edges[2, j])]
         u = (b[0] - a[0], b[1] - a[1])
@@ -244,7 +248,7 @@ def _judge_lines(name, segs, tags, res):
             ts.append(t)
         pieces[parent].append((min(ts), max(ts)))
     for i, (a, b) in enumerate(segs):
-        length = math.hypot(b[0] - a[0], b[1] - a[1])
+        length = math.hypot(float(b[0] - a[0]), float(b[1] - a[1]))
         for t0, t1, loc in _clip2d(name, a, b):
             f0, f1 = float(t0), float(t1)
             if loc > 0:
@@ -521,10 +525,71 @@ def _part_polys(case, out, V):
 F9, F11 = X.F(9, 16), X.F(11, 16)
 
 
+NONCONVEX2D = ["L", "U", "concave-quad"]
+
+
+def _segments2d_rot():
+    """Lattice segments plus segments with endpoints on {1/2, 3/2, 5/2}^2 (these endpoints are
+    strictly inside or strictly outside the polygons; many such segments cross a notch)."""
+    h = [X.F(k, 2) for k in (1, 3, 5)]
+    pts = list(itertools.product(h, repeat=2))
+    return _segments2d() + list(itertools.combinations(pts, 2))
+
+
+def _part_lines_rot(case, out, V):
+    """Every cyclic rotation and both orientations of the vertex list of a non-convex polygon."""
+    from porepy.geometry import constrain_geometry
+
+    name = case["polygon"]
+    poly = POLY2D[name]
+    k = len(poly)
+    segs = _segments2d_rot()
+    oriented = [s for ab in segs for s in (ab, ab[::-1])]
+    icall = 0
+    for rev in (0, 1):
+        base = poly[::-1] if rev else poly
+        for r in range(k):
+            listing = base[r:] + base[:r]
+            P = np.array(listing, dtype=float).T.copy()
+            batches = [[s] for s in oriented] + [oriented]
+            for seglist in batches:
+                icall += 1
+                fl = [tuple(tuple(float(x) for x in q) for q in s) for s in seglist]
+                pts = np.array([q for s in fl for q in s], dtype=float).T.copy()
+                tags = [100 + i for i in range(len(seglist))]
+                edges = np.array([[2 * i for i in range(len(seglist))], [2 * i + 1 for i in range(len(seglist))], tags], dtype=int)
+                v = _VARIANTS[icall % len(_VARIANTS)]
+                Pv, ptsv, edgesv = VR.make(P, v), VR.make(pts, v), VR.represent(edges, v[1], "int", v[3])
+                pur = VR.Purity(poly_pts=Pv, pts=ptsv, edges=edgesv)
+                try:
+                    res = constrain_geometry.lines_by_polygon(Pv, ptsv, edgesv)
+                    if v[0] != "id" and isinstance(res, tuple) and len(res) == 3:
+                        res = (VR.inv(res[0], v[0]),) + tuple(res[1:])
+                    err, detail = _judge_lines(name, seglist, tags, res)
+                except Exception as e:
+                    err, detail, res = "raised on valid input", repr(e), None
+                if not err and pur.changed():
+                    err, detail = "input array modified: " + ",".join(pur.changed()), None
+                single = len(seglist) == 1
+                cls, nt = _seg_class(name, *seglist[0]) if single else ("batch", True)
+                key = ("lr", name, rev, r, icall) if nt else None
+                if err:
+                    V.add("lines_by_polygon: " + err, cat=f"rot/{cls}", detail=detail, polygon=[list(q) for q in listing],
+                          pts=pts if single else "all segments", edges=edges if single else "all segments",
+                          variant=VR.name(v), returned=_returned(res) if single else None)
+                    out.ev(f"VIOLATION/lines-rot/{name}/{cls}", key)
+                else:
+                    out.ev(f"lines-rot/{name}/{'cw' if rev else 'ccw'}/{cls}", key)
+    if not out.samples:
+        out.samples.append({"polygon": name, "vertex_listings": 2 * k, "segments": len(oriented)})
+
+
 def run_case(case) -> Outcome:
     out = Outcome()
     V = _V(out)
-    if case["part"] == "lines":
+    if case["part"] == "lines-rot":
+        _part_lines_rot(case, out, V)
+    elif case["part"] == "lines":
         _part_lines(case, out, V)
     else:
         _part_polys(case, out, V)
